@@ -91,22 +91,11 @@ def evaluator_shape(lam: ast.Lambda):
     return None
 
 
-def run(repo: Repo, chk: Check):
-    chk.rule("R03.a", "each operator-table row evaluates with the Python operator its key names, on (first, second) parameter in that order", floor=20)
-    chk.rule("R03.b", "each row's evaluator has the semantics of the IC10 opcode in the same row (bitwise opcode <-> bitwise "
-                      "operator, never Python's short-circuit and/or; relational <-> the same comparison)", floor=20)
-    chk.rule("R03.c", "every name in _math_functions that Python's math module can evaluate denotes the same function as the "
-                      "IC10 instruction of that name (same arity, an intrinsic wrapper exists)", floor=10)
-    chk.rule("R03.d", "a constant (or another value) is propagated through a variable only under 'not is_overwritten'", floor=3)
-    chk.rule("R03.e", "constants[k] is the module variable k of types.py, so the folded and the un-folded spelling agree", floor=3)
-    chk.rule("R03.f", "the operand coercion _e ends in float(value) and sends HASH(\"...\") spellings through the numeric hash", floor=2)
-    chk.rule("R03.g", "a literal replaces an expression only under the node's is_constant flag (or the callee's is_constexpr)", floor=5)
-    chk.rule("R03.h", "every call of a table evaluator passes the constant values of (left, right) / (operand) in that order, "
-                      "under a guard that they are constant, and its failures are not turned into values", floor=5)
+def fold_table_rows(repo: Repo, chk: Check, RA: str, RB: str):
+    """Rows of the operator tables: evaluator vs key (RA) and vs opcode (RB)."""
     u = repo.mod("utils")
     chk.saw("utils", "get_binop_instruction")
     chk.saw("utils", "get_unop_instruction")
-
     # ------------------------------------------------------------ R03.a / R03.b
     for fname, arity in (("get_binop_instruction", 2), ("get_unop_instruction", 1)):
         rows, how, default = helper_rows(repo, "utils", fname)
@@ -133,40 +122,60 @@ def run(repo: Repo, chk: Check):
             facts = {"opcode": opcode, "evaluator": norm(lams[0])}
             if arity == 2:
                 if shape[0] != "bin" or len(params) != 2:
-                    chk.bad("R03.a", key, f"binary operator {r.key!r} has the evaluator {norm(lams[0])}", facts, where)
+                    chk.bad(RA, key, f"binary operator {r.key!r} has the evaluator {norm(lams[0])}", facts, where)
                     continue
                 _, opc, l, rr, wr = shape
                 want = KEY_SEM.get(r.key)
                 if want is None:
-                    chk.ok("R03.a", key + " [operator outside the oracle: not judged]", facts, vacuous=True)
+                    chk.ok(RA, key + " [operator outside the oracle: not judged]", facts, vacuous=True)
                 else:
                     ok = opc in want and l == params[0] and rr == params[1]
-                    chk.judge("R03.a", key, ok,
+                    chk.judge(RA, key, ok,
                               f"row {r.key!r} is evaluated by {norm(lams[0])}: expected operator {sorted(c.__name__ for c in want)} on ({params[0]}, {params[1]}) in that order",
                               facts, where)
                 sem = BIN_SEM.get(opcode)
                 if opcode not in ISA:
-                    chk.ok("R03.b", key + f" [opcode {opcode!r} not in the ISA: reported by C09]", facts, vacuous=True)
+                    chk.ok(RB, key + f" [opcode {opcode!r} not in the ISA: reported by C09]", facts, vacuous=True)
                 elif sem is None:
-                    chk.bad("R03.b", key, f"opcode {opcode!r} has no arithmetic meaning the folder could mirror", facts, where)
+                    chk.bad(RB, key, f"opcode {opcode!r} has no arithmetic meaning the folder could mirror", facts, where)
                 else:
-                    chk.judge("R03.b", key, opc is sem or opc == sem,
+                    chk.judge(RB, key, opc is sem or opc == sem,
                               f"row {r.key!r} emits {opcode!r} at run time but folds with {getattr(opc, '__name__', opc)} "
                               f"(the instruction computes {getattr(sem, '__name__', sem)})", facts, where)
             else:
                 if shape[0] != "un" or len(params) != 1:
-                    chk.bad("R03.a", key, f"unary operator {r.key!r} has the evaluator {norm(lams[0])}", facts, where)
+                    chk.bad(RA, key, f"unary operator {r.key!r} has the evaluator {norm(lams[0])}", facts, where)
                     continue
                 _, opc, p, wr = shape
                 want = UN_KEY.get(r.key)
-                chk.judge("R03.a", key, want is not None and opc is want and p == params[0],
+                chk.judge(RA, key, want is not None and opc is want and p == params[0],
                           f"row {r.key!r} is evaluated by {norm(lams[0])}", facts, where)
                 sem = UN_SEM.get(opcode)
                 if opcode not in ISA:
-                    chk.ok("R03.b", key + f" [opcode {opcode!r} not in the ISA: reported by C09]", facts, vacuous=True)
+                    chk.ok(RB, key + f" [opcode {opcode!r} not in the ISA: reported by C09]", facts, vacuous=True)
                 else:
-                    chk.judge("R03.b", key, sem is not None and opc is sem,
+                    chk.judge(RB, key, sem is not None and opc is sem,
                               f"row {r.key!r} emits {opcode!r} at run time but folds with {opc.__name__}", facts, where)
+
+
+
+def run(repo: Repo, chk: Check):
+    chk.rule("R03.a", "each operator-table row evaluates with the Python operator its key names, on (first, second) parameter in that order", floor=20)
+    chk.rule("R03.b", "each row's evaluator has the semantics of the IC10 opcode in the same row (bitwise opcode <-> bitwise "
+                      "operator, never Python's short-circuit and/or; relational <-> the same comparison)", floor=20)
+    chk.rule("R03.c", "every name in _math_functions that Python's math module can evaluate denotes the same function as the "
+                      "IC10 instruction of that name (same arity, an intrinsic wrapper exists)", floor=10)
+    chk.rule("R03.d", "a constant (or another value) is propagated through a variable only under 'not is_overwritten'", floor=3)
+    chk.rule("R03.e", "constants[k] is the module variable k of types.py, so the folded and the un-folded spelling agree", floor=3)
+    chk.rule("R03.f", "the operand coercion _e ends in float(value) and sends HASH(\"...\") spellings through the numeric hash", floor=2)
+    chk.rule("R03.g", "a literal replaces an expression only under the node's is_constant flag (or the callee's is_constexpr)", floor=5)
+    chk.rule("R03.h", "every call of a table evaluator passes the constant values of (left, right) / (operand) in that order, "
+                      "under a guard that they are constant, and its failures are not turned into values", floor=5)
+    u = repo.mod("utils")
+    chk.saw("utils", "get_binop_instruction")
+    chk.saw("utils", "get_unop_instruction")
+
+    chk.guarded(fold_table_rows, repo, chk, "R03.a", "R03.b")
 
     # ------------------------------------------------------------ R03.c
     m, st, v = module_dict(repo, "utils", "_math_functions")
